@@ -5,6 +5,7 @@ package main
 import (
 	"fmt"
 	"go/token"
+	"go/types"
 	"sort"
 	"strings"
 
@@ -33,6 +34,12 @@ func ruleVD16(c *Ctx) {
 		}
 	}
 	add(c.unitOf(hc))
+	if view := c.nilViewOf[hc]; view != nil {
+		// hasCycle(g, a, b) = cyclePath(g, a, b) != nil: the search lives behind the function whose result is tested
+		add([]*ssa.Function{view})
+		add(Closures(view))
+		add(c.unitOf(view))
+	}
 	if ir := c.F.Anchors["isReachable"]; ir != nil {
 		// the search proper is a role of its own: it belongs to the unit whoever else calls it
 		add([]*ssa.Function{ir})
@@ -61,8 +68,20 @@ func ruleVD16(c *Ctx) {
 	// (a) no `return false` inside a loop
 	nRet := 0
 	for _, f := range order {
-		if f.Signature.Results().Len() != 1 || f.Signature.Results().At(0).Type().String() != "bool" {
+		if f.Signature.Results().Len() != 1 {
 			continue
+		}
+		// the negative answer: `false`, or nil for a search that hands back the path it found
+		isBoolFn := f.Signature.Results().At(0).Type().String() == "bool"
+		if !isBoolFn {
+			switch f.Signature.Results().At(0).Type().Underlying().(type) {
+			case *types.Slice, *types.Pointer, *types.Map:
+			default:
+				continue
+			}
+			if f == hc {
+				continue
+			}
 		}
 		for _, r := range returnsOf(f) {
 			vals := []ssa.Value{r.Results[0]}
@@ -71,8 +90,11 @@ func ruleVD16(c *Ctx) {
 				vals, preds = ph.Edges, r.Block().Preds
 			}
 			for i, v := range vals {
-				b, isConst := constBool(v)
-				if !isConst || b {
+				if isBoolFn {
+					if b, isConst := constBool(v); !isConst || b {
+						continue
+					}
+				} else if !isNilConst(v) {
 					continue
 				}
 				nRet++
